@@ -144,7 +144,7 @@ func refStream(p []byte) ([]byte, error) {
 }
 
 func streams(r *common.Run, a *agg) {
-	maxTotal := 22
+	maxTotal := 20 // quick: all compositions of streams up to 20 bytes (thorough: 24)
 	if r.Thorough() {
 		maxTotal = 24
 	}
@@ -387,9 +387,9 @@ func streamsAll(r *common.Run, a *agg, out *outcomes, maxTotal int, ref func(pp,
 // i-th Write failing, and with the j-th Read failing with a non-EOF error. A fault that fired
 // must surface as a non-nil error (a nil return would claim a complete copy).
 func streamsFaults(r *common.Run, a *agg, out *outcomes, ref func(pp, n int) []byte) {
-	maxEnc, maxDec := 8, 18
+	maxEnc, maxDec := 10, 17
 	if r.Thorough() {
-		maxEnc, maxDec = 10, 20
+		maxEnc, maxDec = 12, 19
 	}
 	type task struct {
 		dec bool
